@@ -108,8 +108,12 @@ def main(seed=1):
         results.append(dict(mutation=name, line=idx + 1, rejected=hit))
         ok &= hit
     # dropping an accepted call that changed the projected state (satisfied / saturated flags) must show at the next event
-    changing = [i for i in calls if i > 0 and lines[i - 1].get('e') != 'Seg' and lines[i].get('fl') != lines[i - 1].get('fl')
-                and i + 1 < len(lines) and 'fl' in lines[i + 1]]
+    def became_satisfied(i):      # a slot whose 'satisfied' flag this call turned on and that the next event still shows
+        before = {f[0]: f[1] for f in lines[i - 1].get('fl', [])}
+        after = {f[0]: f[1] for f in lines[i].get('fl', [])}
+        nxt = {f[0] for f in lines[i + 1].get('fl', [])} if i + 1 < len(lines) else set()
+        return any(before.get(s) == 0 and after.get(s) == 1 and s in nxt for s in after)
+    changing = [i for i in calls if i > 0 and lines[i - 1].get('e') != 'Seg' and i + 1 < len(lines) and 'fl' in lines[i + 1] and became_satisfied(i)]
     for n, idx in enumerate(rnd.sample(changing, min(4, len(changing)))):
         mod = lines[:idx] + lines[idx + 1:]
         v = validate(mod, work, 'd%d' % n)
